@@ -456,13 +456,27 @@ def collect(ctx, prop):
             found.append(v)
         else:
             raise Inconclusive("reference server process died during scenario %s (see C14): %s" % (last, p.stderr[-800:]))
+    calib = None
+    if prop == "C11":
+        # conformance of the oracle's request-reading operators (Authz!ASV, ServiceOf, CommandOf, ArgString, Unique)
+        # with the real argument helpers of authorize_fields.go
+        af = ctx.path("args.ndjson")
+        ctx.run_harness(["args", af, str(ctx.seed), str(1500 if quick else 20000)])
+        os.makedirs(ctx.path("achunks"), exist_ok=True)
+        ares = validate_chunks(ctx, "Trace_Args", split_trace(af, NCPU, ctx.path("achunks"), marker=None), heap="3g")
+        calib = {"calls": 0, "agree": 0}
+        for rr in ares:
+            for m in re.finditer(r'"CNT",\s*\[(.*?)\]', rr["out"], re.S):
+                for k, v in re.findall(r'(\w+) \|-> (\d+)', m.group(1)):
+                    calib[k] = calib.get(k, 0) + int(v)
+            divs += [l[:200] for l in rr["out"].splitlines() if l.startswith('<<"DIV"')]
     nsteps = sum(len(s["steps"]) for s in scen)
     cov = {"states": ctx.tlc_distinct, "transitions": ctx.tlc_states, "traces_validated_against_impl": len(scen),
            "evaluations": len(scen), "distinct_nontrivial": len({json.dumps(s["steps"], sort_keys=True) for s in scen if len(s["steps"]) >= 2}),
            "rule": "scenario = configuration + packets of 1-3 sessions interleaved on 1-2 connections of the real reference server; non-trivial = distinct step list with >= 2 packets",
            "samples": [slim(scen[0]), slim(scen[-1])], "steps": nsteps, "events": stats.get("events"),
            "model_divergences": len(divs), "first_divergences": divs[:5], "other_property_observations": sorted(others), "exhaustive": False,
-           "design_check": mcinfo}
+           "design_check": mcinfo, "request_reading_conformance": calib}
     return cov, ["the abstract configuration in the trace is the one the harness rendered into the real config.ServerConfig (bcrypt hashes at MinCost)",
                      "pattern text and its AST are produced together by the generator (lib/refgen.py render)",
                      "connections are scripted in-memory objects; packets are fed one at a time (quiescence between packets)"], found
